@@ -114,8 +114,8 @@ RULES["C19"] = ("cases: transform (N = 2^p, p in 1..12 mostly, 13..15 (20 thorou
                 "non-trivial: N >= 4 and not the impulse at 0; constructor argument not itself a power of two or refused; every mismatch case. distinct: hash of the case JSON.")
 PROPS["C19"] = {
     "level": "exploration",
-    "quick": shards(8, "TestC19", 2000, floor=500) + [S("TestC19Sweep", floor=100)],
-    "thorough": shards(15, "TestC19", 30000, floor=8000, timeout=3400) + [S("TestC19Sweep", floor=100, env={"VERIF_HI": 70000}, timeout=3400)]
+    "quick": shards(8, "TestC19", 2000, floor=500) + [S("TestC19Sweep", floor=100), S("TestC19FirstCall", floor=5, env={"VERIF_NO_PRELUDE": 1})],
+    "thorough": shards(15, "TestC19", 30000, floor=8000, timeout=3400) + [S("TestC19Sweep", floor=100, env={"VERIF_HI": 70000}, timeout=3400), S("TestC19FirstCall", floor=5, env={"VERIF_NO_PRELUDE": 1})]
                 + [S("FuzzFFTNew", fuzz="FuzzFFTNew", fuzztime=180, parallel=4, floor=1000, weight=4, timeout=600)],
     "assumptions": ["fft.New(2^27) is constructed once per run (3 GB); a full 2^27-point transform (unit impulse, analytic spectrum on sampled bins, inverse round trip) only in the thorough tier",
                     "a panic on a wrong-length slice counts as 'refused' (the property says refused rather than computed)"],
@@ -159,7 +159,7 @@ PROPS["C08"] = {
 }
 
 RULES["C09"] = ("fault points: workflow in {factory, poweron, period} x {sequential, parallel} and single-shot; failure kind in {io.EOF, io.ErrUnexpectedEOF, custom error, error returned with a partial read, "
-                "transient error followed by more data, an error of its own concrete type followed by io.EOF, a never-ending error that claims Temporary() == true}; offset enumerated: SingleDetect every offset for numByte in {16,40,1280}; periodic workflows every sample boundary -1/0/+1, first/last three offsets, two interior ones; "
+                "transient error followed by more data, an error of its own concrete type followed by io.EOF, a one-off error returned together with a partial read, a never-ending error that claims Temporary() == true}; offset enumerated: SingleDetect every offset for numByte in {16,40,1280}; periodic workflows every sample boundary -1/0/+1, first/last three offsets, two interior ones; "
                 "10^6-bit workflows offsets {0,1,mid-sample,sample-1,sample,sample+1} (thorough: also deep/last-sample offsets); plus rapid-drawn offsets, read-delay plans and GOMAXPROCS for the parallel variants. "
                 "oracle: returns (false, err != nil); 'returns' is decided by a quiescence detector (three consecutive 100 ms snapshots in which every goroutine with a library frame is parked on a channel/semaphore/mutex) "
                 "not by a stopwatch (a workflow that is still reading after 10^6 failed Reads of a permanently failing source is judged a livelock); afterwards the library goroutines drain back to the baseline. non-trivial: at least one full sample was delivered before the failure (single-shot: offset > 0). distinct: hash of the case JSON.")
